@@ -114,7 +114,7 @@ def run(ctx):
                  timeout=ctx.pick(280, 1500), count=False)
     behaviours = list({digest(b): b for b in ra.json}.values())
     ctx.extra['spec_behaviours_exported'] = len(behaviours)
-    cap = ctx.pick(9000, 120000)
+    cap = ctx.pick(7000, 120000)
     if len(behaviours) > cap:
         ctx.rng.shuffle(behaviours)
         behaviours = behaviours[:cap]
@@ -126,6 +126,9 @@ def run(ctx):
     rg = ctx.tlc('MC_PipelineS', ctx.pick('MC_PipelineS_G.cfg', 'MC_PipelineS_G2.cfg'), env=env, workers=4, timeout=600, count=False)
     hist = list({digest(b): b for b in rg.json}.values())
     ctx.extra['spec_registration_histories_exported'] = len(hist)
+    if len(hist) > 4000:
+        ctx.rng.shuffle(hist)
+        hist = hist[:4000]
     H.replay_behaviours(ctx, OWN, hist, both=ctx.quick, seen_other=seen_other, label='leg A (registration histories)')
     rs = ctx.tlc('MC_PipelineS', 'MC_PipelineS_Sim.cfg', env=env, simulate={'num': ctx.pick(60, 1500)}, depth=40,
                  seed=ctx.seed + 1, workers=4, timeout=600, count=False)
@@ -136,7 +139,7 @@ def run(ctx):
     # ---- leg B ---------------------------------------------------------------------------------
     items = []
     rng = ctx.rng
-    for k in range(ctx.pick(5000, 120000)):
+    for k in range(ctx.pick(4500, 100000)):
         asgi = bool(k & 1)
         trace, case, runs = H.random_trace(rng, asgi=asgi, ncomp=rng.randint(4, 6), maxhooks=3, regs=H.C3REGS,
                                            classes=H.ALL_CLASSES, nreqs=1 if k % 8 else 2)
